@@ -185,3 +185,40 @@ Example C05_refused_shutdown_example :
   closed s' = false /\ out s' = out s /\ ids_assigned s' = [0; 1] /\
   caller_phase s' 3 = Some (Queued (rq 20 7 103)) /\ ackq s' = [9] /\ writer s' = WParked.
 Proof. vm_compute. repeat split; reflexivity. Qed.
+
+(* ---- round 7: two more runs the theorems above already cover, written out ----
+   (a) An application that replaced the built-in KeepAlive handler acknowledges by hand: it submits a header-only
+   KeepAliveAck through SendNoWait. DECISION: such a message is a request for theorem 6 — everything taken from the
+   send queue with id 0 is numbered by the counter ([assigned] does not look at the type), so its id cannot depend on
+   anything the reader chose: here the reader's keep-alive carries id 1 (an id the counter has already given), the
+   hand-written acknowledgement gets the next id, 2.
+   (b) Close() lands between the header and the payload of a frame (theorem 8): the write loop is still in WPayload,
+   the next write-loop step writes the complete payload, and only then the loop sees done. *)
+Definition cfg_noack : config := mkConfig true true 1 false [T_KeepAlive] false.
+Definition manual_ack_evs : list event :=
+  [ConnStart; ConnFirst ren_ok HBNone; ConnReady; RCheck;
+   Submit 1 (rq 2 5 101); PassGate 1; WDefault; WAccept 1; WWriteHdr; WWritePay;
+   Submit 2 (rq 3 0 0); PassGate 2; WDefault; WAccept 2; WWriteHdr;
+   RFrame (mkFrame 1 T_KeepAlive 1 0 0 IOpaque) HBNone; RCheck;
+   Submit 3 (mkReq T_KeepAliveAck 0 0 0 1 false true); PassGate 3; WDefault; WAccept 3; WWriteHdr].
+Example C05_manual_ack_example :
+  let s := run cfg_noack manual_ack_evs in
+  ids_assigned s = [0; 1; 2] /\ ackq s = [] /\
+  map (fun o => (o_src o, f_typ (o_frame o), f_id (o_frame o))) (out s) = [(Some 1, 2, 0); (Some 2, 3, 1); (Some 3, T_KeepAliveAck, 2)].
+Proof. cbv zeta. split; [vm_compute; reflexivity|]. split; vm_compute; reflexivity. Qed.
+
+Definition close_midframe_evs : list event :=
+  [ConnStart; ConnFirst ren_ok HBNone; ConnReady; RCheck;
+   Submit 1 (rq 2 40000 101); PassGate 1; WDefault; WAccept 1; WWriteHdr; Close; ConnSelect false; SeeClosed 1].
+Example C05_close_midframe_example :
+  let s := run cfg_today close_midframe_evs in
+  let o := mkOFrame (mkFrame 1 2 0 40000 101 IOpaque) (Some 1) in
+  let s' := run_from cfg_today s [WSeeDone; WWritePay; WSeeDone] in
+  writer s = WPayload o /\ wire s = [CHdr o] /\ out s = [] /\
+  out s' = [o] /\ wire s' = [CHdr o; CPay o] /\ writer s' = WExit /\
+  closed s = true /\ caller_result s 1 = Some RErrClosed.
+Proof.
+  cbv zeta. split; [vm_compute; reflexivity|]. split; [vm_compute; reflexivity|]. split; [vm_compute; reflexivity|].
+  split; [vm_compute; reflexivity|]. split; [vm_compute; reflexivity|]. split; [vm_compute; reflexivity|].
+  split; vm_compute; reflexivity.
+Qed.
